@@ -1,41 +1,56 @@
 #!/bin/sh
-# usage: eval_seed.sh <PROP-ID> <worktree> <seed-name>
-# Confirms a seeded change (build, suite, demo), stores it under /verif/seeded/,
-# then applies it to /repo, runs the quick check and undoes it.
+# usage: eval_seed.sh <PROP-ID> <dir-with-seeded-files-or-worktree> <seed-name>
+# Confirms a seeded change against the CURRENT /repo HEAD: a fresh worktree of HEAD gets patch.diff applied, is built,
+# the repository's suite and the demo are run (demo also on a base build of HEAD), then the quick check is pointed at
+# that worktree (VERIF_REPO) -- equivalent to `git -C /repo apply`, check, `git -C /repo checkout -- .`, but /repo is
+# never touched so that background runs on /repo are not disturbed.
 set -u
-id=$1; wt=$2; name=$3
+id=$1; src=$2; name=$3
+[ -d "$src/seeded" ] && src="$src/seeded"
 dst=/verif/seeded/$name
 mkdir -p "$dst"
-cp "$wt/seeded/patch.diff" "$wt/seeded/demo.sh" "$dst/" || exit 2
-[ -f "$wt/seeded/notes.md" ] && cp "$wt/seeded/notes.md" "$dst/"
-echo "== 1. build with the change and run the repository's suite"
+for f in patch.diff demo.sh notes.md; do [ -f "$src/$f" ] && [ "$src" != "$dst" ] && cp "$src/$f" "$dst/"; done
+head=$(git -C /repo rev-parse --short HEAD)
+wt=/tmp/evalwt-$name
+git -C /repo worktree remove --force "$wt" >/dev/null 2>&1
+git -C /repo worktree add -q --detach "$wt" HEAD || exit 2
+trap 'git -C /repo worktree remove --force "$wt" >/dev/null 2>&1' EXIT
+git -C "$wt" apply "$dst/patch.diff" || { echo "PATCH-DOES-NOT-APPLY to $head"; exit 2; }
+# base build of HEAD
+if [ "$(git -C /tmp/wt-base rev-parse --short HEAD 2>/dev/null)" != "$head" ]; then
+  git -C /repo worktree remove --force /tmp/wt-base >/dev/null 2>&1
+  git -C /repo worktree add -q --detach /tmp/wt-base HEAD
+  cmake -G Ninja -S /tmp/wt-base -B /tmp/wt-base/_build >/dev/null && cmake --build /tmp/wt-base/_build -j8 >/dev/null 2>&1
+fi
+echo "== 1. build HEAD($head)+change and run the repository's suite"
 ( cmake -G Ninja -S "$wt" -B "$wt/_build" >/dev/null && cmake --build "$wt/_build" -j8 >/dev/null 2>&1 ) || { echo BUILD-FAILED; exit 2; }
 suite=$(ctest --test-dir "$wt/_build" -j8 2>&1 | grep -E "tests passed|tests failed")
 echo "$suite"
 echo "== 2. demo on the changed build (must fail) and on the base build (must pass)"
-( cd "$dst" && timeout 120 sh demo.sh "$wt/_build" >/dev/null 2>&1 ); d1=$?
-( cd "$dst" && timeout 120 sh demo.sh /tmp/wt-base/_build >/dev/null 2>&1 ); d0=$?
+( cd "$dst" && timeout 300 sh demo.sh "$wt/_build" >/dev/null 2>&1 ); d1=$?
+( cd "$dst" && timeout 300 sh demo.sh /tmp/wt-base/_build >/dev/null 2>&1 ); d0=$?
 echo "demo with change: exit $d1 ; demo on base: exit $d0"
 echo "== 3. quick check against the change"
-# the check is pointed at the worktree (which is /repo's HEAD + the change); /repo itself is not touched,
-# so that background sweeps on /repo are not disturbed.  Equivalent to: git -C /repo apply; check; checkout.
-git -C /repo apply --check "$dst/patch.diff" || { echo "PATCH-DOES-NOT-APPLY"; exit 2; }
 out=$(cd /verif && VERIF_REPO="$wt" ./check "$id" --tier quick --no-evidence 2>&1); rc=$?
-for f in /verif/replays/$id/found-*; do [ -d "$f" ] && { mkdir -p "$dst/found"; mv "$f" "$dst/found/"; }; done
+for f in /verif/replays/$id/found-*; do [ -d "$f" ] && { mkdir -p "$dst/found"; rm -rf "$dst/found/$(basename $f)"; mv "$f" "$dst/found/"; }; done
 echo "$out" | grep -E "VIOLATION|failure key|tier=|INCONCLUSIVE|HARNESS" | cut -c1-260 | head -8
 echo "check exit: $rc"
-python3 - "$id" "$name" "$suite" "$d1" "$d0" "$rc" <<'PY'
-import json, sys
-id, name, suite, d1, d0, rc = sys.argv[1:7]
-meta = {"property": id, "name": name, "suite_with_change": suite.strip(), "demo_exit_with_change": int(d1),
-        "demo_exit_on_base": int(d0), "quick_check_exit_with_change": int(rc),
+python3 - "$id" "$name" "$suite" "$d1" "$d0" "$rc" "$head" <<'PY'
+import json, sys, os
+id, name, suite, d1, d0, rc, head = sys.argv[1:8]
+p = '/verif/seeded/%s/meta.json' % name
+old = json.load(open(p)) if os.path.exists(p) else {}
+meta = {"property": id, "name": name, "evaluated_against_repo_head": head, "suite_with_change": suite.strip(),
+        "demo_exit_with_change": int(d1), "demo_exit_on_base": int(d0), "quick_check_exit_with_change": int(rc),
         "caught_by_quick_check": int(rc) == 1,
-        "what_i_ran": ["cmake+ninja build of the worktree with the change", "ctest -j8 in that build",
+        "what_i_ran": ["fresh worktree of /repo HEAD + patch.diff, cmake+ninja build", "ctest -j8 in that build",
                        "sh demo.sh <changed build>", "sh demo.sh <base build of HEAD>",
-                       "VERIF_REPO=<worktree = /repo HEAD + patch.diff> ./check %s --tier quick (same as applying the patch to /repo)" % id]}
+                       "VERIF_REPO=<that worktree> ./check %s --tier quick (same as applying the patch to /repo)" % id]}
+if old.get("history"):
+    meta["history"] = old["history"]
 try:
     meta["needs_to_manifest"] = open('/verif/seeded/%s/notes.md' % name).read()[:1500]
 except OSError:
     pass
-json.dump(meta, open('/verif/seeded/%s/meta.json' % name, 'w'), indent=1)
+json.dump(meta, open(p, 'w'), indent=1)
 PY
